@@ -73,7 +73,7 @@ def same_arrays(a, b, dist, tol):
 
 def tree_part(ck, n, nwalks, seed, corrupt=None):
     from .. import gridoracle
-    tab = gridoracle.int_tables(n, 2, 5, seed + 3)
+    tab = gridoracle.int_tables(n, 2, 5, seed + 3, dup=[(0, 1)])      # two data points with identical likelihoods (identical sibling arrays occur)
     data = gridoracle.data_from_tables(tab, outlier_prob=0.2, sizes=[(3, 1, 2)[i % 3] for i in range(n)])   # clustered data points
     dist = c06.make_dist()
     rs = np.random.RandomState(seed + 15)
